@@ -9,4 +9,5 @@ __CPROVER_requires(k == ((auxout >= 0 && auxout < 6 && auxin >= 0 && auxin < 6) 
 /*@ clause frame src=property props=C14 */
 __CPROVER_assigns()
 /*@ clause frame.actual src=code */
-__CPROVER_assigns(__CPROVER_object_whole(self->_c))
+/* only the slice of the cache that belongs to conversion k: [_c[Lmax k], _c[Lmax (k+1)]) with Lmax = 6 */
+__CPROVER_assigns(k >= 0: __CPROVER_object_upto(self->_c + 6 * k, 6 * sizeof(double)))
